@@ -7,7 +7,7 @@ Section TextFacts.
   Variable norm : str -> str.
   Variable attrs : list (str * str).
   Variable settable : list str.
-  Variable decl_digest : list CssV.Tokenizer.tok -> option (str * val * bool).
+  Variable decl_digest : list CssV.Tokenizer.tok -> option (str * val * bool) * bool.
   Variable at_digest : list CssV.Tokenizer.tok -> option N.
   Variable comment_id : CssV.Tokenizer.tok -> N.
 
@@ -104,9 +104,60 @@ Section TextFacts.
   Qed.
 End TextFacts.
 
+(* ---- the declaration parse (Property.cssText on one run, values opaque) *)
+Definition blank (t : CssV.Tokenizer.tok) : bool := tyis t "S" || tyis t "COMMENT".
+
+Lemma name_parse_found ts : forall l ok, name_parse ts (Some l) ok = (Some l, ok && forallb blank ts).
+Proof.
+  induction ts as [|t r IH]; intros l ok; simpl; [now rewrite andb_true_r|].
+  unfold blank at 1. destruct (tyis t "S" || tyis t "COMMENT") eqn:B; simpl.
+  - apply IH.
+  - destruct (tyis t "IDENT"); rewrite IH; simpl; now rewrite andb_false_r.
+Qed.
+
+(* Property._setName accepts exactly: blanks, ONE IDENT, blanks -- and the literal name is its lower-cased value *)
+Theorem name_parse_spec ts l :
+  name_parse ts None true = (Some l, true) <->
+  exists a t b, ts = a ++ t :: b /\ forallb blank a = true /\ forallb blank b = true /\
+                tyis t "IDENT" = true /\ blank t = false /\ l = CssV.Tokenizer.lower (CssV.Tokenizer.val t).
+Proof.
+  split.
+  - induction ts as [|t r IH]; simpl; [discriminate|].
+    destruct (tyis t "S" || tyis t "COMMENT") eqn:B.
+    + intros H. destruct (IH H) as (a & t' & b & -> & Ha & Hb & Ht & Hbl & El).
+      exists (t :: a), t', b. simpl. unfold blank at 1. rewrite B. simpl. repeat split; auto.
+    + destruct (tyis t "IDENT") eqn:I.
+      * rewrite name_parse_found. simpl. intros H. injection H as E1 E2.
+        exists [], t, r. simpl. repeat split; auto; try exact B; try (now rewrite E1).
+      * intros H. exfalso. clear - H.
+        assert (G : forall ts f, snd (name_parse ts f false) = false).
+        { induction ts as [|x ts IHt]; intros f; simpl; auto.
+          destruct (tyis x "S" || tyis x "COMMENT"); auto. destruct (tyis x "IDENT"); auto. destruct f; auto. }
+        specialize (G r None). rewrite H in G. discriminate.
+  - intros (a & t & b & -> & Ha & Hb & Ht & Hbl & ->). induction a as [|x a IH]; simpl.
+    + unfold blank in Hbl. rewrite Hbl, Ht, name_parse_found, Hb. reflexivity.
+    + simpl in Ha. apply andb_true_iff in Ha as [Hx Ha]. unfold blank in Hx. rewrite Hx. auto.
+Qed.
+
+(* a declaration run that yields no property has logged an error: with raiseExceptions on the assignment raises *)
+Theorem decl_parse_dropped_is_error norm valof run e : decl_parse norm valof run = (None, e) -> e = true.
+Proof.
+  unfold decl_parse.
+  destruct (CssV.Upto.upto CssV.Upto.FPropName None run) as [nt r1]. destruct nt as [|n0 nt]; [congruence|].
+  destruct (CssV.Upto.upto CssV.Upto.FPropValue None r1) as [vt r2].
+  destruct (CssV.Upto.upto CssV.Upto.FPropPriority None r2) as [pt r3].
+  destruct (CssV.Upto.separate_end (n0 :: nt)) as [names [colon|]]; [|congruence].
+  destruct (negb (eqs (CssV.Tokenizer.val colon) (s ":"))); [congruence|].
+  destruct (is_nil names); [congruence|].
+  destruct (CssV.Upto.separate_end vt) as [vb [e0|]]; [|congruence].
+  destruct (if eqs (CssV.Tokenizer.val e0) (s "!") then (vb, e0 :: pt) else (vt, pt)) as [vt' pt'].
+  destruct (name_parse names None true) as [nm nok]. destruct (prio_parse pt' 0 [] true) as [plit pok].
+  destruct nm as [l|]; [|congruence]. destruct nok; [|congruence]. destruct (valof vt'); congruence.
+Qed.
+
 (* ---- non-vacuity / witness on real tokens: the junk statements of C04 (`(y):2;` and `3 ! y:2;`) *)
-Definition dg (run : list CssV.Tokenizer.tok) : option (str * val * bool) :=
-  match run with t :: _ => Some (CssV.Tokenizer.val t, 1%N, false) | [] => None end.
+Definition dg (run : list CssV.Tokenizer.tok) : option (str * val * bool) * bool :=
+  match run with t :: _ => (Some (CssV.Tokenizer.val t, 1%N, false), false) | [] => (None, true) end.
 
 Example settext_ex :
   fst (text_items dg (fun _ => None) (fun _ => 7%N) (CssV.SkeletonFacts.decl_x ++ CssV.SkeletonFacts.junk_paren ++ CssV.SkeletonFacts.decl_z))
@@ -116,10 +167,10 @@ Proof. split; vm_compute; reflexivity. Qed.
 
 Example settext_string_ex :
   option_map (fun o => after [] (step_i false o []))
-    (settext_of_string_i [(s "c\olor: red", Some (DDecl (s "c\olor") 1%N false));
+    (settext_of_string_i [(s "red", Some (DDecl [] 1%N false));
                           (s "/*c1*/", Some (DComment 1%N));
-                          (s "top: 1px !important", Some (DDecl (s "top") 3%N true))]
-                         false (s "c\olor: red; /*c1*/ (y):2; top: 1px !important"))
+                          (s "1px", Some (DDecl [] 3%N false))]
+                         false (s "C\olor : red; /*c1*/ (y):2; top: 1px ! IMPORTANT; left: $; x y: red"))
   = Some [IProp (mkProp (s "c\olor") (s "color") 1%N false); IComment 1%N;
           IProp (mkProp (s "top") (s "top") 3%N true)].
 Proof. vm_compute. reflexivity. Qed.
